@@ -9,7 +9,8 @@ ENV=dict(os.environ, GOFLAGS='-mod=mod', GOPROXY='off', GOSUMDB='off', GOTOOLCHA
 refac='--refactors' in sys.argv
 ids=[a for a in sys.argv[1:] if not a.startswith('--')]
 explicit=bool(ids)
-BIN='/tmp/matrix2/glyphverif'
+TAG='r' if '--refactors' in sys.argv else 's'
+BIN='/tmp/matrix2/glyphverif-'+TAG
 os.makedirs('/tmp/matrix2',exist_ok=True)
 subprocess.run('cd /verif/checker && go build -o %s .'%BIN,shell=True,env=ENV,check=True)
 root='/verif/refactors' if refac else '/verif/seeded'
@@ -18,7 +19,7 @@ N=6
 def sh(cmd,cwd=None):
     r=subprocess.run(cmd,shell=True,cwd=cwd,env=ENV,capture_output=True,text=True); return r.returncode,r.stdout+r.stderr
 def worker(w,chunk):
-    wt=f'/tmp/matrix2/wt{w}'; ev=f'/tmp/matrix2/ev{w}'
+    wt=f'/tmp/matrix2/wt{TAG}{w}'; ev=f'/tmp/matrix2/ev{TAG}{w}'
     sh(f'git -C /repo worktree remove --force {wt}'); shutil.rmtree(wt,ignore_errors=True)
     rc,out=sh(f'git -C /repo worktree add --detach {wt} HEAD'); assert rc==0,out
     os.makedirs(ev,exist_ok=True)
